@@ -79,3 +79,50 @@ Definition batch_frame (shell : nat) (s0 s1 : sfile) : Prop :=
 (* resume: read everything back (by name) *)
 Fixpoint r_indexed {V} (T : positive) (l : list (name * V)) (i n : nat) : option (list V) :=
   match n with O => Some [] | S n' => match assoc (NmI T i) l, r_indexed T l (S i) n' with Some v, Some r => Some (v :: r) | _, _ => None end end.
+(* blobs: `if 'blobs_i' in group: if i == 0: self.blobs = []; self.blobs.append(...)`.  A blobs_i without a blobs_0 is an
+   AttributeError (None has no append): the read fails; a gap after blobs_0 silently gives a shorter list. *)
+Fixpoint r_blobs (d : list (name * tok)) (i n : nat) (acc : option (list tok)) : option (option (list tok)) :=
+  match n with
+  | O => Some acc
+  | S n' =>
+    match assoc (NmI T_blobs i) d with
+    | None => r_blobs d (S i) n' acc
+    | Some v =>
+      match i, acc with
+      | O, _ => r_blobs d (S i) n' (Some [v])
+      | S _, Some l => r_blobs d (S i) n' (Some (l ++ [v]))
+      | S _, None => None
+      end
+    end
+  end.
+Definition opt_or {A} (o : option A) (d : A) : A := match o with Some v => v | None => d end.
+
+(* Sampler.__init__(resume=True): `static` are the constructor arguments (they are not read back), `n` is
+   len(shell_n) as read from the file, `dflt` the values the transfer arrays keep when their datasets are absent *)
+Definition read_file (static : list tok) (n : nat) (dflt : tok * tok * tok) (g : h5) : option sfile :=
+  match kid (Nm T_sampler) g with
+  | None => None
+  | Some sg =>
+    let a := attrs_of sg in let d := dsets_of sg in
+    match assoc (Nm T_rng1) a, assoc (Nm T_rng2) a, assoc (Nm T_rng3) a, assoc (Nm T_rng4) a with
+    | Some r1, Some r2, Some r3, Some r4 =>
+      match assoc (Nm T_nlike) a, assoc (Nm T_explored) a, assoc (Nm T_discard) a, assoc (Nm T_shn) a, assoc (Nm T_shns) a, assoc (Nm T_shneff) a,
+            assoc (Nm T_shlmin) a with
+      | Some v1, Some v2, Some v3, Some v4, Some v5, Some v6, Some v7 =>
+        match assoc (Nm T_shll) a, assoc (Nm T_shlv) a, assoc (Nm T_nse) a, assoc (Nm T_ee) a, assoc (Nm T_nui) a, assoc (Nm T_nli) a with
+        | Some v8, Some v9, Some v10, Some v11, Some v12, Some v13 =>
+          match r_indexed T_pts d 0 n, r_indexed T_logl d 0 n, r_blobs d 0 n None, r_indexed T_bnd (kids_of g) 0 n with
+          | Some ps, Some ls, Some bl, Some bs =>
+            let '(d1, d2, d3) := dflt in
+            Some (mkSF static v1 v2 v3 v4 v5 v6 v7 v8 v9 v10 v11 v12 v13 ps ls bl
+                       (opt_or (assoc (Nm T_ptst) d) d1) (opt_or (assoc (Nm T_sht) d) d2) (opt_or (assoc (Nm T_loglt) d) d3) (assoc (Nm T_blobst) d)
+                       bs (r1, r2, r3, r4))
+          | _, _, _, _ => None
+          end
+        | _, _, _, _, _, _ => None
+        end
+      | _, _, _, _, _, _, _ => None
+      end
+    | _, _, _, _ => None
+    end
+  end.
